@@ -127,6 +127,23 @@ def run(ck):
             if len(got) != n - 1:
                 ck.fail_case({**base_sig, "accessor": "PointIsotherm.loading", "clause": "limits are interpreted in the requested units"}, {"lower": lo_l, "returned": len(got), "expected": n - 1})
 
+        # limits of pressure() are given in the REQUESTED representation: the slice equals the slice of a converted copy
+        try:
+            conv_all = [float(expected_pressure(P, lab, rq_p, ps[i])) for i in range(n)]
+        except Exception:
+            conv_all = None
+        if conv_all and all(map(math.isfinite, conv_all)) and conv_all[0] < conv_all[-1]:
+            lo_p, hi_p = conv_all[1] * (1 - 1e-9), conv_all[n - 2] * (1 + 1e-9)
+            try:
+                got = [float(x) for x in iso.pressure(branch="ads", pressure_mode=rq_p[0], pressure_unit=rq_p[1], limits=(lo_p, hi_p))]
+                okp = len(got) == n - 2 and all(close(g, e, rel=1e-10) for g, e in zip(got, conv_all[1:n - 1]))
+            except Exception as e:  # noqa
+                got, okp = repr(e), False
+            ck.count(("limits-units-p", tuple(lab[:2]), rq_p), bucket="limits")
+            if not okp:
+                ck.fail_case({**base_sig, "accessor": "PointIsotherm.pressure", "clause": "limits are interpreted in the requested units"},
+                             {"limits": [lo_p, hi_p], "got": str(got)[:300], "expected": conv_all[1:n - 1]})
+
         # ---------------- interpolation laws (native units), then foreign-unit queries
         q_in = (up[1] + up[2]) / 2
         for kind in ("linear",):
@@ -156,6 +173,19 @@ def run(ck):
                 dv, okd = repr(e), False
             if not okd:
                 ck.fail_case({"accessor": "PointIsotherm.loading_at", "clause": "desorption branch interpolation"}, {"query": dq, "got": str(dv)})
+            # pressure_at on the desorption branch, THEN on the adsorption branch of the same object (each branch has its own interpolant)
+            dql = (ls[n] + ls[n + 1]) / 2
+            try:
+                pdv = float(iso.pressure_at(dql, branch="des"))
+                pdl = ps[n + 1] + (ps[n] - ps[n + 1]) * (dql - ls[n + 1]) / (ls[n] - ls[n + 1])
+                okd = close(pdv, pdl, rel=1e-12)
+            except Exception as e:  # noqa
+                pdv, okd = repr(e), False
+            if not okd:
+                ck.fail_case({"accessor": "PointIsotherm.pressure_at", "clause": "desorption branch interpolation"}, {"query": dql, "got": str(pdv)})
+            pmid = float(iso.pressure_at((ls[1] + ls[2]) / 2))
+            if not close(pmid, (up[1] + up[2]) / 2, rel=1e-12):
+                ck.fail_case({"accessor": "PointIsotherm.pressure_at", "clause": "adsorption branch after a desorption query"}, {"loading": (ls[1] + ls[2]) / 2, "got": pmid, "expected": (up[1] + up[2]) / 2})
             pk = float(iso.pressure_at(ls[2]))
             if not close(pk, up[2], rel=1e-12):
                 ck.fail_case({"accessor": "PointIsotherm.pressure_at", "clause": "coincides at knots"}, {"loading": ls[2], "got": pk, "expected": up[2]})
